@@ -37,16 +37,27 @@ def run(chk):
     B = os.stat(wd).st_blksize
     quick = chk.tier == "quick"
     inputs = c10.make_inputs(wd, chk.rng, chk.tier, 0 if quick else 8)
-    groups = []
-    names = ["small", "warn"] if quick else [n for n in inputs if n != "att"]
+    have_ptrace = c10.build_injector()
+    chk.cov["ptrace_permitted"] = bool(have_ptrace)
+    ALLK = ("full", "fail", "disk", "cap", "killb", "killa")
+    plan = []     # (scenario, input, fault kinds, limit)
     if quick:
-        names.append("big")
-    for iname in names:
-        kinds = ("full", "fail", "disk", "cap", "killb", "killa")
-        limit = (70 if iname == "big" else 140) if quick else None
-        g = c10.run_group(chk, runner, wd, "replace", iname, inputs[iname], B, limit, kinds=kinds, pid="C11")
-        g["inp"] = inputs[iname]
-        groups.append(g)
+        plan += [("replace", "small", ALLK, 140), ("replace", "warn", ALLK, 140), ("replace", "big", ALLK, 60)]
+        # warnings that arise only while the temporary file is written: the original must be kept as <in>.~qpdf-orig
+        plan += [("replace", "wlate", ("full", "fail", "killb", "killa"), 45)]
+        # --deterministic-id: finish() from the Popper destructor
+        plan += [("replace-did", "big", ("full", "cap", "killa"), 40)]
+    else:
+        for iname in inputs:
+            if iname not in ("att", "multi"):
+                plan.append(("replace", iname, ALLK, None))
+                plan.append(("replace-did", iname, ALLK, None))
+    if have_ptrace:
+        # exactly one write(2) on the temporary file fails (EINTR / EIO / ENOSPC) and the following ones succeed
+        plan += [("replace", "multi", tuple(c10.ERRNOS), None), ("replace-did", "multi", tuple(c10.ERRNOS), None)]
+    groups = []
+    for scen, iname, kinds, limit in plan:
+        groups.append(c10.run_group(chk, runner, wd, scen, iname, inputs[iname], B, limit, kinds=kinds, pid="C11"))
     variant, diffs, total = c10.evaluate(chk, runner, groups, B, pid="C11")
     # the C11 specification on the directory the binary left
     slines, idx = [], []
@@ -59,7 +70,6 @@ def run(chk):
         other_backup = "outrep.pdf.~qpdf-orig" + ("#" if not backup.endswith("#") else "")
         g["cls"] = []
         for j, x in enumerate(g["impl"]):
-            rd = os.path.join(wd, "replace-%s-%d" % (g["input"], j))
             files = x[9]
             a = classify(sc, files, "outrep.pdf")
             b = classify(sc, files, backup)
@@ -92,7 +102,9 @@ def run(chk):
                            "exit": x[5], "stderr": x[6], "directory": {"<in>": a, "<in>.~qpdf-orig[#]": b, "<in>.~qpdf-temp#": c,
                                                                            "legend": "O original, N complete new file, A absent, X anything else (partial)"},
                            "file_sizes": x[8], "failing_calls": x[2][:6], "signature": sig,
-                           "replay": {"scenario": "replace", "input": g["input"], "fault": fault}}, signature=sig)
+                           "replay": {"scenario": g["scen"], "input": g["input"], "fault": fault}}, signature=sig)
+            sigs = chk.cov.setdefault("specification_violations_by_signature", {})
+            sigs[sig] = sigs.get(sig, 0) + 1
     if diffs[variant]:
         g, j, cmpo = diffs[variant][0]
         vline = c10.model_lines(g["sc"], g["inp"], [g["faults"][j]], B, variant, verbose=True)
@@ -100,6 +112,7 @@ def run(chk):
         chk.violation({"kind": "correspondence-broken", "correspondence": "corr:C11:replace-input",
                        "differing_cases": len(diffs[variant]), "check_vector_assumed": c10.vec_name(variant),
                        "first_case": {"argv": g["impl"][j][7], "input": g["input"], "fault": g["faults"][j]},
+                       "differing_cases_by_checks_vector": {v: len(d) for v, d in sorted(diffs.items(), key=lambda kv: len(kv[1]))[:6]},
                        "implementation": g["impl"][j][0], "model": cmpo,
                        "implementation_calls": " ".join(g["impl"][j][1])[-1200:], "model_calls": vout.split("|")[-1].replace("_", " ")[-1200:]},
                       no_input=True)
@@ -111,7 +124,7 @@ def run(chk):
                                 "directory(in,backup,temp)": "".join(g["cls"][j])})
     chk.count("replace-input-histories", total, nontriv, samples)
     chk.cov["parts"]["replace-input-histories"]["distribution"] = dist
-    chk.cov["parts"]["replace-input-histories"]["operations_per_input"] = {g["input"]: g["sc"].nops for g in groups if "sc" in g}
+    chk.cov["parts"]["replace-input-histories"]["operations_per_group"] = {"%s/%s" % (g["scen"], g["input"]): g["sc"].nops for g in groups if "sc" in g}
     chk.cov["check_vector_observed"] = c10.vec_name(variant)
     chk.cov["rule"] = ("qpdf --replace-input on inputs without and with warnings; for every file operation k of the run (quick: every non-write operation, its "
                        "neighbours and a sample of the writes): the operation fails (full@k, fail@k), the process is killed before it (killb@k) and after it "
